@@ -8,9 +8,9 @@ import (
 type tokKind int
 
 const (
-	tokEOF tokKind = iota
-	tokIdent       // bare identifier or keyword
-	tokQIdent      // `quoted` or "quoted" identifier
+	tokEOF    tokKind = iota
+	tokIdent          // bare identifier or keyword
+	tokQIdent         // `quoted` or "quoted" identifier
 	tokNumber
 	tokString
 	tokOp
@@ -57,7 +57,7 @@ func hexVal(c byte) byte {
 //
 // rule A1: \b \f \r \n \t \0 \a \v \xHH \\ \' (and \" \` \/ \= as ClickHouse's parseComplexEscapeSequence
 // does: an escaped quote character or any of these maps to itself) are decoded; \N is kept as \N;
-// any other \c stays as the two characters \c; '' inside a literal is one quote.
+// any other \c stays as the two characters \c; ” inside a literal is one quote.
 func decodeQuoted(s string, i int, quote byte) (string, int, error) {
 	var sb strings.Builder
 	for i < len(s) {
